@@ -15,7 +15,7 @@ enum { U_ALLOC = 1, U_RELEASE, U_SWAP, U_RESET, U_GET,
        S_ALLOC = 10, S_SHARE, S_SWAP, S_RESET, S_GET, S_UNIQUE,
        W_FROM = 20, W_LOCK, W_SWAP, W_RESET,
        G_SET = 30, G_COPY, G_SWAP, G_GET,
-       X_STRAY = 40 };
+       X_STRAY = 40, X_MANY = 41 };
 
 static const char *q_opname(int k)
 {
@@ -26,7 +26,7 @@ static const char *q_opname(int k)
     case S_RESET: return "shared_reset"; case S_GET: return "shared_get"; case S_UNIQUE: return "shared_unique";
     case W_FROM: return "weak_from"; case W_LOCK: return "weak_lock"; case W_SWAP: return "weak_swap"; case W_RESET: return "weak_reset";
     case G_SET: return "guarded_set"; case G_COPY: return "guarded_copy"; case G_SWAP: return "guarded_swap"; case G_GET: return "guarded_get";
-    case X_STRAY: return "stray";
+    case X_STRAY: return "stray"; case X_MANY: return "many_owners";
     }
     return "?";
 }
@@ -320,7 +320,8 @@ static void q_once(const plan_t *p)
         }
         case U_SWAP: {
             int t;
-            x %= NUP; y %= NUP; if (y == x) y = (x + 1) % NUP;
+            x %= NUP; y %= NUP; if (y == x && !(o->a[3] & 8)) y = (x + 1) % NUP;
+            if (y == x) { PROBE("self_swap"); g_cur_ctx = "self-swap"; }
             TRY(cstl_unique_ptr_swap(&up[x], &up[y]));
             if (g_aborted) VIOL("abort", "swap aborted");
             t = tup[x]; tup[x] = tup[y]; tup[y] = t;
@@ -373,7 +374,8 @@ static void q_once(const plan_t *p)
             break;
         case S_SWAP: {
             int t;
-            x %= NSP; y %= NSP; if (y == x) y = (x + 1) % NSP;
+            x %= NSP; y %= NSP; if (y == x && !(o->a[3] & 8)) y = (x + 1) % NSP;
+            if (y == x) { PROBE("self_swap"); g_cur_ctx = "self-swap"; }
             TRY(cstl_shared_ptr_swap(&sp[x], &sp[y]));
             if (g_aborted) VIOL("abort", "swap aborted");
             t = tsp[x]; tsp[x] = tsp[y]; tsp[y] = t;
@@ -414,7 +416,8 @@ static void q_once(const plan_t *p)
         }
         case W_SWAP: {
             int t;
-            x %= NWP; y %= NWP; if (y == x) y = (x + 1) % NWP;
+            x %= NWP; y %= NWP; if (y == x && !(o->a[3] & 8)) y = (x + 1) % NWP;
+            if (y == x) { PROBE("self_swap"); g_cur_ctx = "self-swap"; }
             TRY(cstl_weak_ptr_swap(&wp[x], &wp[y]));
             if (g_aborted) VIOL("abort", "swap aborted");
             t = twp[x]; twp[x] = twp[y]; twp[y] = t;
@@ -454,6 +457,49 @@ static void q_once(const plan_t *p)
             break;
         }
         case G_GET: EVT("g_get", 0, 0, 0); break;
+
+        /* ------------------------------- very many references to one allocation */
+        case X_MANY: {
+            /* a counter narrower than size_t, or any per-reference table, only shows with hundreds / tens of thousands of
+             * references: n owners (and n/2 weak references) of one fresh allocation, then everything lets go */
+            static cstl_shared_ptr_t many[70000]; static cstl_weak_ptr_t manyw[35000];
+            static const unsigned counts[] = { 255, 256, 257, 300, 65535, 65536, 65537, 66000 };
+            unsigned n = counts[o->a[2] % 8], q, nw = n / 2 < 35000 ? n / 2 : 35000;
+            static bool uq; static const void *pp;
+            if (live_allocs() >= maxlive + 1) { EVT("skip", 0, 0, 0); break; }
+            g_cur_ctx = n > 60000 ? "refs-above-2^16" : "refs-above-2^8";
+            for (q = 0; q < n; q++) cstl_shared_ptr_init(&many[q]);
+            for (q = 0; q < nw; q++) cstl_weak_ptr_init(&manyw[q]);
+            ncbl = 0;
+            TRY(cstl_shared_ptr_alloc(&many[0], 24, cbs[7]));
+            TRY(pp = cstl_shared_ptr_get(&many[0]));
+            if (pp == NULL) { EVT("skip", 0, 0, 0); break; }
+            ((unsigned char *)pp)[0] = 0x5c;
+            for (q = 1; q < n; q++) { g_inlib = 1; cstl_shared_ptr_share(&many[q - 1], &many[q]); g_inlib = 0; }
+            for (q = 0; q < nw; q++) { g_inlib = 1; cstl_weak_ptr_from(&manyw[q], &many[q]); g_inlib = 0; }
+            TRY(uq = cstl_shared_ptr_unique(&many[0]));
+            if (uq) VIOL("unique", "unique() is true with %u owners and %u weak references", n, nw);
+            /* a lock must succeed while owners exist */
+            TRY(cstl_weak_ptr_lock(&manyw[0], &sp[NSP]));
+            TRY(pp = cstl_shared_ptr_get(&sp[NSP]));
+            if (pp == NULL) VIOL("lock_failed_with_owners", "weak lock failed although %u owners exist", n);
+            TRY(cstl_shared_ptr_reset(&sp[NSP]));
+            /* every owner but the last lets go: nothing may be cleared or released yet */
+            for (q = 0; q + 1 < n; q++) {
+                g_inlib = 1; cstl_shared_ptr_reset(&many[q]); g_inlib = 0;
+                if (ncbl) VIOL("cleared_early", "the clear callback ran when owner %u of %u let go (%u owners remain)", q + 1, n, n - q - 1);
+            }
+            TRY(pp = cstl_shared_ptr_get(&many[n - 1]));
+            if (pp == NULL || !simheap_is_live(pp) || ((const unsigned char *)pp)[0] != 0x5c)
+                VIOL("payload_released_early", "with one of %u owners left the managed memory is gone", n);
+            TRY(cstl_shared_ptr_reset(&many[n - 1]));
+            if (ncbl != 1) VIOL("clear_count", "after all %u owners let go the clear callback has run %d times", n, ncbl);
+            for (q = 0; q < nw; q++) { g_inlib = 1; cstl_weak_ptr_reset(&manyw[q]); g_inlib = 0; }
+            ncbl = 0; nexp_clear = 0;
+            PROBE(n > 60000 ? "many_refs_above_2^16" : "many_refs_above_2^8");
+            EVT("many", n, nw, 0);
+            break;      /* check_effects below verifies that nothing of it is left allocated */
+        }
 
         /* ------------------------------------------------------ C20 */
         case X_STRAY: {
@@ -590,6 +636,7 @@ static void q_gen(prng_t *r, int mode, plan_t *p)
         o->a[0] = prng_below(r, 12); o->a[1] = prng_below(r, 12); o->a[2] = prng_next(r) >> 8; o->a[3] = prng_below(r, 16);
         if (faults && (kind == U_ALLOC || kind == S_ALLOC) && prng_chance(r, 1, 3)) o->a[4] = 1 + prng_below(r, 2);
     }
+    if (mode == 5 && prng_chance(r, 1, 150)) { op_t *o = plan_add(p, X_MANY); o->a[2] = prng_below(r, 8); }
     if (mode == 20) {
         op_t *o = plan_add(p, X_STRAY);
         o->a[0] = prng_below(r, 4); o->a[1] = prng_below(r, 12); o->a[2] = prng_below(r, 63); o->a[3] = prng_below(r, 2); o->a[5] = prng_below(r, 12);
